@@ -138,7 +138,8 @@ X86Body(c, adjknown, adj) ==
 ArmLoad(r, a) ==
   IF a.k = "sym"
   THEN <<Ev("adrp", r, "", 0, a.s, <<>>), Ev("addlo12", r, r, 0, a.s, <<>>)>>
-  ELSE IF SmallNonNeg(a) THEN <<Ev("movimm", r, "", 0, "", a.b)>>
+  ELSE IF SmallNonNeg(a) \/ SmallNeg(a)        \* one mov (movz / movn alias)
+       THEN <<Ev("movimm", r, "", 0, "", a.b)>>
   ELSE <<Ev("movimm", r, "", 0, "", <<a.b[1], a.b[2], 0, 0, 0, 0, 0, 0>>)>>
        \o Cat([k \in 1..3 |-> IF a.b[2 * k + 1] = 0 /\ a.b[2 * k + 2] = 0 THEN <<>>
                               ELSE <<Ev("movk", r, "", 16 * k, "", <<a.b[2 * k + 1], a.b[2 * k + 2]>>)>>])
@@ -148,8 +149,7 @@ Arm64Body(c) ==
       nr == NRegs(c)
       ns == NStack(c)
       sa == AlignUp(ns * 8, conv.align)
-      bad == \E i \in 1..n : c.args[i].k = "int" /\ SmallNeg(c.args[i])
-  IN  [exc |-> IF bad THEN "AsmSyntaxError" ELSE "",
+  IN  [exc |-> "",
        body |-> (IF sa > 0 THEN <<ED("adjsp", -sa)>> ELSE <<>>)
                 \o Cat([j \in 1..ns |->
                           LET p == n + 1 - j IN
@@ -198,8 +198,7 @@ LegitRefusalC17(c, exc) ==
   \/ exc = "NotImplementedError" /\ c.abi = "mips32"
   \/ exc = "ValueError" /\ c.abi = "arm64" /\ c.custom /\ (c.cshadow # 0 \/ c.calign # 16)
 
-\* KF-C17-1 (F4): ARM64, an integer in [-0xFFFF, -1] is rendered `#0x-5'
-KfArmNeg(c) == c.abi = "arm64" /\ \E i \in DOMAIN c.args : c.args[i].k = "int" /\ SmallNeg(c.args[i])
+\* (FX-C17-1, ARM64 integers in [-0xFFFF, -1], is fixed and excuses nothing)
 \* KF-C17-2 (F4): x86-64, a stack-passed integer that is not a sign-extended imm32
 KfX64Push(c) ==
   IsX64(c.abi) /\ \E i \in (NRegs(c) + 1)..Len(c.args) :
@@ -310,7 +309,7 @@ CInv_TypeOK == MTypeOK
 CInv_Refusal ==
   (pc > 0 /\ pred.exc # "") =>
      \/ LegitRefusalC17(cfg, pred.exc)
-     \/ pred.exc = "AsmSyntaxError" /\ Ex(KfArmNeg(cfg) \/ KfX64Push(cfg))
+     \/ pred.exc = "AsmSyntaxError" /\ Ex(KfX64Push(cfg))
 CInv_ArgsAtCall ==
   \A k \in DOMAIN aux.calls :
      IF Strict THEN ArgRegsOK(par, aux.calls[k]) /\ StackArgsOK(par, aux.calls[k])
